@@ -378,6 +378,21 @@ func (g *vC02Gen) randLabel() []byte {
 	return l
 }
 
+// octets that continue a label which is a proper prefix of a sibling's label: plain (never escaped by the
+// library) octets on both sides of the separator '.' (0x2E) — '-' '*' '+' '!' '$' ',' sort below it, the
+// others above — so "www" / "www-2" style pairs occur in every other zone
+var vC02ExtOctets = []byte{'-', '-', '-', '*', '+', '!', '$', ',', '/', '0', '0', 'a', 'A', '_', '~'}
+
+// vC02Extend: the label continued by one or two plain octets
+func (g *vC02Gen) extend(l []byte) []byte {
+	o := append([]byte(nil), l...)
+	o = append(o, vC02ExtOctets[g.r.Intn(len(vC02ExtOctets))])
+	if g.r.Intn(3) == 0 {
+		o = append(o, vC02ExtOctets[g.r.Intn(len(vC02ExtOctets))])
+	}
+	return o
+}
+
 func (g *vC02Gen) newPool(simple bool) {
 	g.labels = nil
 	k := 3 + g.r.Intn(4)
@@ -386,6 +401,12 @@ func (g *vC02Gen) newPool(simple bool) {
 			g.labels = append(g.labels, []byte{"abcxyz"[g.r.Intn(6)]})
 		} else {
 			g.labels = append(g.labels, g.randLabel())
+		}
+	}
+	// prefix siblings: labels of the pool continued by a plain octet (half of the pools)
+	if g.r.Intn(2) == 0 {
+		for i := 1 + g.r.Intn(2); i > 0; i-- {
+			g.labels = append(g.labels, g.extend(g.labels[g.r.Intn(len(g.labels))]))
 		}
 	}
 }
@@ -854,6 +875,11 @@ func (g *vC02Gen) candidates(z *vC02Zone) []vC02Name {
 			// neighbours of the leaf label
 			l2 := append(append([]byte(nil), l...), 0)
 			add(vC02Child(l2, par))
+			// the label continued by a plain octet, and its proper prefixes (prefix siblings)
+			add(vC02Child(g.extend(l), par))
+			if len(l) > 1 {
+				add(vC02Child(l[:len(l)-1], par))
+			}
 			if l[len(l)-1] > 0 {
 				l3 := append([]byte(nil), l...)
 				l3[len(l3)-1]--
